@@ -91,6 +91,27 @@ func genSession(flavor string) func(t *rapid.T) SessCase {
 				}
 			}
 		}
+		if rapid.IntRange(0, 19).Draw(t, "big-chunks?") == 0 {
+			// chunks of several MiB of incompressible data (many codec blocks each): a sequential read abandoned
+			// inside such a chunk leaves the codec with work in flight on the shared source
+			comp := rapid.SampledFrom([]string{"zstd", "zstd", "lz4", ""}).Draw(t, "big-comp")
+			kb := wl.Config{Chunked: true, ChunkSize: 3 << 20, Compression: comp, IncludeCRC: rapid.Bool().Draw(t, "big-crc")}
+			wb := wl.Workload{Profile: "p", Library: "l"}
+			wb.Ops = append(wb.Ops, wl.Op{C: &wl.Channel{ID: 1, Topic: "/a"}}, wl.Op{C: &wl.Channel{ID: 2, Topic: "/b"}})
+			n := rapid.IntRange(30, 60).Draw(t, "big-n")
+			seed := rapid.Uint64().Draw(t, "big-seed") | 1
+			for i := 0; i < n; i++ {
+				wb.Ops = append(wb.Ops, wl.Op{M: &wl.Message{ChannelID: uint16(1 + i%2), Sequence: uint32(i), LogTime: uint64(i / 3), PublishTime: uint64(i), Data: wl.Fill(120<<10, seed+2*uint64(i))}})
+			}
+			cb := SessCase{W: wb, K: kb, Flavor: flavor}
+			for round := 0; round < 3; round++ {
+				cb.Ops = append(cb.Ops, SessOp{Kind: "scan", Partial: 1 + round}, SessOp{Kind: "scan", Partial: -1})
+				if round == 1 {
+					cb.Ops = append(cb.Ops, SessOp{Kind: "info", Partial: -1}, SessOp{Kind: "messages", Order: 1, Partial: -1})
+				}
+			}
+			return cb
+		}
 		mode := rapid.SampledFrom([]int{1, 1, 3, 4, 0}).Draw(t, "time-mode")
 		w := wl.GenWorkload(t, wl.GenParams{ChunkHint: k.ChunkSize, TimeMode: mode, NoLong: true, UniqueSeq: true, MaxMsgs: 40, MinMsgs: 4, MaxPayload: 300, NoMaxTime: flavor == "C02"})
 		c := SessCase{W: w, K: k, Flavor: flavor}
